@@ -162,6 +162,12 @@ impl<E: Entry, const N: usize> Entry for WithGlobalDimensions<E, N> {
             global_dimensions_denylist: self.global_dimensions_denylist(),
         })
     }
+
+    fn sample_group(
+        &self,
+    ) -> impl Iterator<Item = metrique_writer_core::entry::SampleGroupElement> {
+        self.entry.sample_group()
+    }
 }
 
 struct ValueWrapper<'a, V> {
